@@ -173,6 +173,7 @@ class SpecMixin:
         sp = cur_fr.parent
         prev = other.push_frame(cur_fr.module, cur_fr.func, parent=sp if sp in other.frames else parent)
         other.frame.vars.update(cur_fr.vars)
+        nq, npc = len(other.qhyps), len(other.pc)
         try:
             rs = self.ev(node, other)
             if len(rs) != 1 or rs[0][0] != "val":
@@ -182,6 +183,14 @@ class SpecMixin:
             fid = other.cur
             other.cur = prev
             other.frames.pop(fid, None)
+            # typing facts discovered while reading the other state hold there forever
+            for q in other.qhyps[nq:]:
+                st.qhyps.append(q)
+            for key_, val_ in getattr(other, "_mvt", {}).items():
+                if not any(x is val_[2] for x in st.qhyps):
+                    st.qhyps.append(val_[2])
+            for f in other.pc[npc:]:
+                st.pc.append(f)
 
     def spec_call(self, name, node, st):
         a = node.args
@@ -426,9 +435,17 @@ class SpecMixin:
         ctl = self.ctl
         name = lam.args.args[0].arg
 
-        def typing(t):
+        def typing(t, s_=None):
+            s_ = s_ or st
             if isinstance(T, (ty.Ref, ty.Map, ty.Lst, ty.Exc)):
-                return z3.And(t > 0, t < st.alloc)
+                conds = [t > 0, t < s_.alloc]
+                cname = getattr(T, "cls", None)
+                if isinstance(T, ty.Ref) and cname in self.schema.classes:
+                    subs = [n for n in self.schema.classes if cname in self.schema.mro(n)]
+                    conds.append(z3.Or([s_.cls_of(t) == const_id(f"class:{n}") for n in subs]))
+                elif isinstance(T, ty.Exc):
+                    conds.append(s_.cls_of(t) == const_id("class:<exc>"))
+                return z3.And(conds)
             return z3.BoolVal(True)
 
         if ctl.mode == "goal":
@@ -455,7 +472,7 @@ class SpecMixin:
             s.frame.vars.update(frame_vars)
             try:
                 b = self._apply_lambda(lam, [unflatten(T, (t,))], s)
-                return z3.Implies(typing(t), b)
+                return z3.Implies(typing(t, s), b)
             finally:
                 self.spec, self.ctl = was_spec, was_ctl
         st.qhyps.append(QHyp(sort, body_at, f"forall {name}"))
